@@ -1,34 +1,55 @@
-use mdk_core::prelude::*;
+use std::collections::BTreeSet;
+
 use mdk_memory_storage::MdkMemoryStorage;
 use mdk_sqlite_storage::MdkSqliteStorage;
-use mdk_storage_traits::MdkStorageProvider;
-use nostr::event::builder::EventBuilder;
-use nostr::{Keys, Kind};
-use scenarios::*;
+use mdk_storage_traits::groups::GroupStorage;
+use mdk_storage_traits::groups::types::{Group, GroupState, SelfUpdateState};
+use mdk_storage_traits::messages::MessageStorage;
+use mdk_storage_traits::messages::types::{Message, MessageState};
+use mdk_storage_traits::{GroupId, MdkStorageProvider};
+use nostr::{EventId, Kind, PublicKey, Tags, Timestamp, UnsignedEvent};
 
-fn scenario<S: MdkStorageProvider>(c: MDK<S>) {
-    let ck = Keys::generate();
-    let ((ak, a), (_bk, _b), gid) = three(&c, &ck);
-    let m = a.create_message(&gid, EventBuilder::new(Kind::Custom(9), "keep me").build(ak.public_key())).unwrap();
-    assert!(matches!(c.process_message(&m), Ok(MessageProcessingResult::ApplicationMessage(_))));
-    let n_before = c.get_messages(&gid, None).unwrap().len();
-    assert_eq!(n_before, 1);
-    c.storage().create_group_snapshot(&gid, "s1").unwrap();
-    c.storage().rollback_group_to_snapshot(&gid, "s1").unwrap();
-    let after = c.get_messages(&gid, None).unwrap();
-    assert_eq!(after.len(), n_before, "rolling the group back to a snapshot destroyed its stored messages");
-    assert!(c.get_group(&gid).unwrap().is_some());
+fn group(gid: &GroupId, nid: u8) -> Group {
+    Group {
+        mls_group_id: gid.clone(), nostr_group_id: [nid; 32], name: "g".into(), description: "d".into(), admin_pubkeys: BTreeSet::new(),
+        last_message_id: None, last_message_at: None, last_message_processed_at: None, epoch: 1, state: GroupState::Active,
+        image_hash: None, image_key: None, image_nonce: None, self_update_state: SelfUpdateState::Required,
+    }
+}
+
+fn message(gid: &GroupId, b: u8) -> Message {
+    let pk = PublicKey::from_byte_array([2u8; 32]);
+    let ev = UnsignedEvent::new(pk, Timestamp::from_secs(10), Kind::from(9u16), Tags::new(), "keep me".to_string());
+    Message {
+        id: EventId::from_byte_array([b; 32]), pubkey: pk, kind: Kind::from(9u16), mls_group_id: gid.clone(), created_at: Timestamp::from_secs(10),
+        processed_at: Timestamp::from_secs(11), content: "keep me".into(), tags: Tags::new(), event: ev, wrapper_event_id: EventId::from_byte_array([b + 1; 32]),
+        epoch: Some(1), state: MessageState::Processed,
+    }
+}
+
+fn scenario<S: MdkStorageProvider>(s: S) {
+    let g1 = GroupId::from_slice(&[1, 1, 1]);
+    let g2 = GroupId::from_slice(&[2, 2, 2]);
+    s.save_group(group(&g1, 1)).unwrap();
+    s.save_group(group(&g2, 2)).unwrap();
+    s.save_message(message(&g1, 10)).unwrap();
+    s.save_message(message(&g2, 20)).unwrap();
+    s.create_group_snapshot(&g1, "s1").unwrap();
+    s.rollback_group_to_snapshot(&g1, "s1").unwrap();
+    assert_eq!(s.messages(&g2, None).unwrap().len(), 1, "rollback of one group destroyed another group's messages");
+    assert_eq!(s.messages(&g1, None).unwrap().len(), 1, "rolling the group back to a snapshot destroyed its stored messages");
+    assert!(s.find_group_by_mls_group_id(&g1).unwrap().is_some());
 }
 
 /// C09: rollback destroys no stored messages (SQLite backend)
 #[test]
 fn c09_sqlite_rollback_keeps_messages() {
     let dir = tempfile::tempdir().unwrap();
-    scenario(MDK::new(MdkSqliteStorage::new_unencrypted(dir.path().join("c.db")).unwrap()));
+    scenario(MdkSqliteStorage::new_unencrypted(dir.path().join("c.db")).unwrap());
 }
 
 /// control: memory backend
 #[test]
 fn c09_memory_rollback_keeps_messages() {
-    scenario(MDK::new(MdkMemoryStorage::default()));
+    scenario(MdkMemoryStorage::default());
 }
